@@ -3,6 +3,11 @@
 //! helpers of `ArrayMeta`, `ArrayFlags`' own methods and the crate's debug validator
 //! `Array::validate` (src/array.rs), all cut verbatim, over a small `Array` shim.
 #![allow(dead_code, unused_variables, unused_mut, unused_imports, clippy::all)]
+/// src/profile.rs: a no-op unless the `profile` feature is on
+#[macro_export]
+macro_rules! profile_function {
+    () => {};
+}
 pub mod shim;
 pub use shim::*;
 mod extracted;
